@@ -221,7 +221,8 @@ func mintAmount(c *Ctx, site ssa.Instruction) {
 			}
 			return false
 		}
-		g := w.Guarded(up.Top, first, m, 2)
+		// flat view: the guard may sit in the top function or in any helper between it and the mint call
+		g := len(w.FlatGuarded(up.Top, func(in ssa.Instruction) bool { return in == site }, m, 2)) == 0
 		r.Require(g, "A2.mint-guard", key, pos(c, first), "the minting call is reachable only when the same stored order has Status == Accepted", "no such guard on every path to the call in "+fn(up.Top))
 		// id ranges over the accepted queue
 		idOK := false
@@ -254,6 +255,9 @@ func rangesOverSection(c *Ctx, id *ir.Expr, section string) bool {
 	found := false
 	for f := range reach {
 		for _, e := range w.EffectsOf(f) {
+			if e.Generic {
+				continue // resolved at the call sites of the helper (re-created there)
+			}
 			if e.Kind == "StoreIter" || e.Kind == "StoreRead" {
 				if e.Section == section {
 					found = true
